@@ -171,6 +171,34 @@ func main() {
 			jobs = append(jobs, job{dc, cf})
 		}
 	}
+	// selection options: the generated code covers a part of the document, the embedded
+	// documents still are the whole input (operations carry several tags, selected and not)
+	{
+		d := difflib.BaseSpec()
+		for _, t := range []struct {
+			path, method string
+			tags         []any
+		}{{"/things/{pid}", "post", []any{"things", "admin"}}, {"/things/{pid}", "get", []any{"things", "settings", "admin"}},
+			{"/names/{name}", "get", []any{"settings"}}, {"/forms", "post", []any{"admin", "things"}}, {"/docs", "delete", []any{"zeta", "admin", "alpha"}}} {
+			jx.GetJ(d, "paths", t.path, t.method)["tags"] = t.tags
+		}
+		dc := docCase{"selection", "selection", d}
+		sel := []cfg{
+			{"tags=admin", []string{"--tags=admin"}, false},
+			{"tags=settings+admin.full", []string{"--tags=settings", "--tags=admin", "--with-flatten=full"}, false},
+			{"tags=things.yaml", []string{"--tags=things"}, true},
+			{"operation=getThing", []string{"--operation=getThing"}, false},
+			{"operation=deleteDoc+postForm.full", []string{"--operation=deleteDoc", "--operation=postForm", "--with-flatten=full"}, false},
+			{"model=Other", []string{"--model=Other"}, false},
+			{"skip-tag-packages", []string{"--skip-tag-packages"}, false},
+		}
+		if !c.Thorough() {
+			sel = sel[:5]
+		}
+		for _, cf := range sel {
+			jobs = append(jobs, job{dc, cf})
+		}
+	}
 	var mu sync.Mutex
 	core.Parallel(len(jobs), 8, func(i int) {
 		j := jobs[i]
